@@ -86,7 +86,8 @@ Op(x) ==
   LET die == RandomElement(1 .. 20) IN
   IF Mode = "reply" THEN
     CASE die <= 7 -> [op |-> "add_auth", rec |-> [RandRec(x) EXCEPT !.cf = RandomElement({FALSE, FALSE, TRUE})]]
-      [] die <= 10 -> [op |-> "add_cached", rec |-> [RandRec(x) EXCEPT !.ttl = TtlBytes(1000)]]
+      \* (a received record may be expired on arrival -- TTL 0 -- and stays in the store: it is never an answer)
+      [] die <= 10 -> [op |-> "add_cached", rec |-> [RandRec(x) EXCEPT !.ttl = TtlBytes(RandomElement({0, 1000, 1000}))]]
       \* removals mostly target records registered earlier, with either value of the cache-flush bit and any TTL
       [] die <= 12 -> [op |-> "remove",
                        rec |-> [(IF Added(x) # {} /\ RandomElement({1, 2, 3}) > 1
